@@ -26,3 +26,137 @@ def register(w):
                'result is Action.CONVERT)',
                'implies(not (module.__name__ == self._prefix or module.__name__.startswith(self._prefix + ".")), '
                'result is Action.NONE)']))
+
+  # ---------------------------------------------------------------- the call wrapper (event mode)
+  A = 'malt.impl.api.'
+  PUREP = {
+      'malt.impl.conversion.is_in_allowlist_cache': 'bool', 'malt.impl.conversion.is_unsupported': 'bool',
+      'malt.impl.conversion.is_allowlisted': 'bool', 'malt.pyct.inspect_utils.isbuiltin': 'bool',
+      'inspect.ismethod': 'bool', 'inspect.isfunction': 'bool',
+      'malt.impl.api.is_autograph_strict_conversion_mode': 'bool', 'malt.utils.ag_logging.has_verbosity': 'bool',
+      'malt.core.ag_ctx.control_status_ctx': 'ControlStatusCtx',
+  }
+  w.add_class(ClassInfo('partial', fields={}))
+  w.add(Contract(
+      A + '_call_unconverted', mode='event', serves=['C13'], pure=PUREP,
+      spec='''
+def spec(f, args, kwargs, options, update_cache=True):
+  # the target is invoked exactly once with the caller's positional / keyword binding;
+  # the decision is remembered first when asked to
+  if update_cache:
+    conversion.cache_allowlisted(f, options)
+  if kwargs is not None:
+    return f(*args, **kwargs)
+  return f(*args)
+'''))
+  w.add(Contract(
+      A + 'converted_call', mode='event', serves=['C13'], pure=PUREP,
+      inline=[A + '_call_unconverted', A + '_fall_back_unconverted', A + 'is_autograph_artifact'],
+      spec=CONVERTED_CALL_SPEC,
+      assumes=['the policy predicates (allow-list cache, is_unsupported, is_allowlisted, isbuiltin, strict mode) are '
+               'pure functions of their arguments', 'plain log lines are dropped; warnings are observable events']))
+
+
+CONVERTED_CALL_SPEC = r'''
+def spec(f, args, kwargs, caller_fn_scope=None, options=None):
+  def unconverted(remember):
+    if remember:
+      conversion.cache_allowlisted(f, options)
+    if kwargs is not None:
+      return f(*args, **kwargs)
+    return f(*args)
+
+  def fall_back(exc):
+    # run as-is with a warning (two documented silent cases), and remember the failure
+    if isinstance(exc, errors.InaccessibleSourceCodeError):
+      if ag_ctx.INSPECT_SOURCE_SUPPORTED:
+        logging.warning('could not transform', f, '', exc)
+    elif isinstance(exc, errors.UnsupportedLanguageElementError):
+      if not conversion.is_in_allowlist_cache(f, options):
+        logging.warning('could not transform', f, '', exc)
+    else:
+      logging.warning('could not transform', f, 'report', exc)
+    return unconverted(True)
+
+  if options is None:
+    if caller_fn_scope is None:
+      raise ValueError('either caller_fn_scope or options must have a value')
+    options = caller_fn_scope.callopts
+
+  # --- policy: when the target runs unconverted --------------------------------------------
+  if conversion.is_in_allowlist_cache(f, options):        # remembered decision
+    return unconverted(False)
+  if ag_ctx.control_status_ctx().status == ag_ctx.Status.DISABLED:   # per call, never remembered
+    return unconverted(False)
+  if hasattr(f, 'autograph_info__'):                       # already converted artifact
+    return unconverted(True)
+  if isinstance(f, functools.partial):                     # the documented call of a partial
+    new_kwargs = {}
+    if f.keywords is not None:
+      new_kwargs = f.keywords.copy()
+    if kwargs is not None:
+      new_kwargs.update(kwargs)
+    return converted_call(f.func, f.args + args, new_kwargs, caller_fn_scope=caller_fn_scope, options=options)
+  if inspect_utils.isbuiltin(f):                           # builtins go to their overloads
+    if f is eval:
+      return py_builtins.eval_in_original_context(f, args, caller_fn_scope)
+    if f is super:
+      return py_builtins.super_in_original_context(f, args, caller_fn_scope)
+    if f is globals:
+      return py_builtins.globals_in_original_context(caller_fn_scope)
+    if f is locals:
+      return py_builtins.locals_in_original_context(caller_fn_scope)
+    if kwargs:
+      return py_builtins.overload_of(f)(*args, **kwargs)
+    return py_builtins.overload_of(f)(*args)
+  if conversion.is_unsupported(f):
+    return unconverted(True)
+  if not options.user_requested and conversion.is_allowlisted(f):
+    return unconverted(True)
+  if not options.internal_convert_user_code:               # non-recursive mode
+    return unconverted(True)
+
+  # --- what gets converted and how it is called ----------------------------------------------
+  try:
+    if inspect.ismethod(f) or inspect.isfunction(f):
+      target = f
+      eff = args
+      f_self = getattr(f, '__self__', None)
+      if f_self is not None:
+        eff = (f_self,) + eff
+    elif hasattr(f, '__class__') and hasattr(f.__class__, '__call__'):
+      target = f.__class__.__call__
+      eff = (f,) + args
+    else:
+      raise NotImplementedError('unknown callable type')
+  except Exception as e:
+    if is_autograph_strict_conversion_mode():
+      raise
+    return fall_back(e)
+
+  if not hasattr(target, '__code__'):                      # native binding
+    return unconverted(True)
+  if hasattr(target.__code__, 'co_filename') and target.__code__.co_filename == '<string>':
+    return unconverted(True)                               # exec-defined: no source
+
+  try:
+    program_ctx = converter.ProgramContext(options=options)
+    converted_f = _convert_actual(target, program_ctx)
+    if logging.has_verbosity(2):
+      _log_callargs(converted_f, eff, kwargs)
+  except Exception as e:
+    if is_autograph_strict_conversion_mode():
+      raise
+    return fall_back(e)
+
+  # the converted target runs exactly once; its own exceptions are never swallowed
+  try:
+    if kwargs is not None:
+      result = converted_f(*eff, **kwargs)
+    else:
+      result = converted_f(*eff)
+  except Exception as e:
+    _attach_error_metadata(e, converted_f)
+    raise
+  return result
+'''
